@@ -148,13 +148,18 @@ CLAIMED = {
         "(lookup_order2, order2_run, hessian_exact; induction over programs). (b) Analysis: all 17 closed-form second-derivative arrays of T, Phi, "
         "E, P, R, TRANSLATED from the source on every run, are the derivatives (Coquelicot is_derive) of the translated first-derivative "
         "arrays for BOTH orders of differentiation of every mixed entry; pairs absent from PARAMETERS_ORDER2 are identically zero; "
-        "hessian_symmetric.",
+        "hessian_symmetric. (c) Composition, mechanised: hessian_point (two-ring version of (a): plain run in K, bookkeeping in L, ev a ring "
+        "homomorphism, dv1/dv2 derivations over it, dv12 with the second-order Leibniz rule), signal_jet_mixed / signal_jet_diag (2-jets over the "
+        "double dual numbers, Coquelicot), hessian_is_mixed_derivative / hessian_is_second_derivative, and end to end real_operators_hessian_diag / "
+        "_mixed: for sequences of T, Phi, E, P, R (translated arrays, the declaration shape Sequence.build produces for one requested pair, one "
+        "parameter per operator and variable driven affinely, same-operator mixed tables included) the Hessian entry the bookkeeping returns is the "
+        "second (mixed) derivative of the simulated signal.",
    design_ref="DESIGN.md section 4 C03",
    note=TB + "Translator validated by the Interval tie; Model/Diff.v tied to diff.py by exact correspondence of sm.order2 after every operator; Richardson "
         "finite differences of simulate() for random coefficient maps as supporting oracle. The hypothesis cross_ok of (a) excludes exactly the cases in "
         "which the code itself omits cross terms (auto=False with an undeclared pair; an operator without order2 declaration applied before any "
-        "second-order partial exists): there the Hessian is not the second derivative and the theorem does not claim it. The analytic composition "
-        "(a)+(b) => second is_derive of the signal is not mechanised at second order (it is at first order, C02). Axioms: none for (a); classical reals, "
+        "second-order partial exists): there the Hessian is not the second derivative and the theorem does not claim it. The end-to-end theorem covers one requested pair per run (the multi-key form seq.hessian(['x','y']) "
+        "is admitted by hessian_point but not instantiated), affine parameter maps, one parameter per operator and variable. Axioms: none for (a); classical reals, "
         "funext, classic for (b).",
    technique="Coq proof (second-order derivation-exactness by induction over programs; real analysis on translated second-derivative tables) + translator + exact correspondence + finite-difference oracle"),
  "C16": dict(
